@@ -37,8 +37,11 @@ TB = ('table', 'B', (('id', I), ('x', I), ('z', I), ('aid', I)))
 TC = ('table', 'C', (('id', I), ('w', I), ('bid', I), ('x', I)))
 TABLES = (TA, TB, TC)
 BYNAME = {t[1]: t for t in TABLES}
-LITS = (0, 1, 2, 3, -2)  # -1 is left out: hash(-1) == hash(-2) in CPython and DSL equality is hash equality (C08)
-DOMAIN = (-2, 0, 1, 2, 3, None)
+LITS = (0, 1, 2, 3, -2, -1)
+DOMAIN = (-2, -1, 0, 1, 2, 3, None)
+#: integer literals whose CPython hashes collide (hash(-1) == hash(-2) == -2, hash(n) == hash(n + 2**61 - 1)): predicates that
+#: differ in them only have equal hashes - anything that tells features apart by hash() confuses them (C14-X7)
+TWINS = ((-1, -2), (-2, -1), (2 ** 61 - 1, 0), (0, 2 ** 61 - 1), (2 ** 61, 1), (1, 2 ** 61))
 OUTER = ('left', 'right', 'full')
 
 #: the model lines sent per statement (answers are read by position)
@@ -574,8 +577,26 @@ class Gen:
                 return r.choice(bools)
         return X(r.choice(g.COMPARISON), c1, rhs)
 
+    def twins(self, origins: list):
+        """two predicates over one column which differ in hash-colliding literals only, and/or-combined (optionally each
+        and-ed with one and the same further conjunct)"""
+        r = self.rng
+        col = r.choice(self.cols(r.choice(origins)))
+        op = r.choice(g.COMPARISON)
+        a, b = r.choice(TWINS)
+        left, right = X(op, col, L(a)), X(op, col, L(b))
+        roll = r.random()
+        if roll < 0.25:
+            extra = self.atom(origins)
+            left, right = X('and', left, extra), X('and', right, extra)
+        elif roll < 0.4:
+            left, right = X('not', left), X('not', right)
+        return X('or' if r.random() < 0.75 else 'and', left, right)
+
     def pred(self, origins: list, depth: int):
         r = self.rng
+        if r.random() < 0.06:
+            return self.twins(origins)
         if depth <= 0 or r.random() < 0.3:
             return self.atom(origins)
         roll = r.random()
@@ -656,6 +677,19 @@ class Gen:
             right = right[:2] + (right[2][:width],) + right[3:]
             return ('set', left, right, self.rng.choice(g.SET_KINDS))
         return self.query()
+
+    @staticmethod
+    def dense_db() -> dict:
+        """every value of the domain in every integer column (rotated so that rows differ), ids 1..n"""
+        out = {}
+        for table in TABLES:
+            rows = []
+            for i in range(len(DOMAIN)):
+                shift = iter(range(i, i + 99))
+                rows.append(tuple(i + 1 if c == 'id' else (i % 2 if k == BOOL else DOMAIN[next(shift) % len(DOMAIN)])
+                                  for c, k in table[2]))
+            out[table[1]] = rows
+        return out
 
     def db(self) -> dict:
         r = self.rng
@@ -779,6 +813,18 @@ def _corpus():
         ('context-and-direct', Q(J(a, low, 'inner', X('eq', E(a, 'id'), E(low, 'k'))), [E(a, 'y'), E(low, 'v')], X('gt', E(a, 'g'), L(1)))),
         ('set-same-table', ('set', Q(a, [E(a, 'x')], X('gt', E(a, 'x'), L(1))), Q(r, [E(r, 'y')], X('lt', E(r, 'g'), L(2))), 'union')),
     ])
+    big = 2 ** 61 - 1
+    CORPUS.extend([
+        # predicates with equal hashes (hash(-1) == hash(-2), hash(2**61 - 1) == hash(0)) are different predicates
+        ('hash-twins-or', Q(a, [E(a, 'x')], X('or', X('gt', E(a, 'x'), L(-1)), X('gt', E(a, 'x'), L(-2))))),
+        ('hash-twins-or-big', Q(a, [E(a, 'x')], X('or', X('gt', E(a, 'x'), L(big)), X('gt', E(a, 'x'), L(0))))),
+        ('hash-twins-and', Q(a, [E(a, 'x')], X('and', X('lt', E(a, 'x'), L(-1)), X('lt', E(a, 'x'), L(-2))))),
+        ('hash-twins-nested', Q(ab, [E(a, 'x'), E(b, 'z')],
+                                X('or', X('and', X('ge', E(a, 'y'), L(-1)), X('gt', E(b, 'z'), L(0))),
+                                  X('and', X('ge', E(a, 'y'), L(-2)), X('gt', E(b, 'z'), L(0)))))),
+        ('hash-twins-join-on', Q(J(a, b, 'inner', X('and', onab, X('or', X('eq', E(b, 'z'), L(-2)), X('eq', E(b, 'z'), L(-1))))),
+                                 [E(a, 'x'), E(b, 'z')])),
+    ])
     q = ('ref', Q(a, [('alias', E(a, 'x'), 'c0'), ('alias', E(a, 'y'), 'c1')], X('gt', E(a, 'x'), L(1))), 'q')
     CORPUS.append(('nested-join', Q(J(q, b, 'inner', X('eq', E(q, 'c0'), E(b, 'z'))), [E(q, 'c1'), E(b, 'x')], X('gt', E(b, 'x'), L(1)))))
     return CORPUS
@@ -809,7 +855,8 @@ class C14(fw.Check):
     ASSUMPTIONS = [
         'join conditions reference only origins of their own join (enforced by dsl.Join.__new__, checked by a malformed stream)',
         'origins of one query are pairwise distinct (SQL requires distinct table names / aliases)',
-        'DSL equality of predicates = structural equality on the generated literals (hash collisions are C08; -1/-2 never co-occur)',
+        'two predicates of one table are one factor iff they are structurally identical (what the DSL equality is since 9f6ec89); '
+        'hash-colliding literal pairs (-1/-2, 0/2**61-1, 1/2**61) are generated on purpose (C14-X7)',
     ]
 
     # ---- judging one driven statement ------------------------------------------------------------------------------
@@ -1052,7 +1099,7 @@ class C14(fw.Check):
         rng = self.rng
         gen = Gen(rng)
         ndb = self.n(2, 3)
-        self._batch([(f'corpus:{name}', ast, [gen.db() for _ in range(ndb + 1)]) for name, ast in _corpus()])
+        self._batch([(f'corpus:{name}', ast, [gen.db() for _ in range(ndb + 1)] + [gen.dense_db()]) for name, ast in _corpus()])
         # main stream
         items = []
         for _ in range(self.n(240, 2000)):
@@ -1072,8 +1119,6 @@ class C14(fw.Check):
             if ast[0] not in ('query', 'set'):
                 ast = Q(ast)
             text = sexp.dumps(ast)
-            if ' -1)' in text and ' -2)' in text:
-                continue
             if '(window ' in text:
                 continue  # the parser raises for window features
             if 'School' in text and 'Campus' in text:
